@@ -114,6 +114,10 @@ var c20Touch = map[string]string{
 	"locale":            "setlocale(LC_ALL, \"C\");\n",
 	"superglobal":       "$_GET[\"c20k\"] = \"A\";\n$_SERVER[\"C20S\"] = \"A\";\n",
 	"env":               "putenv(\"C20ENV=A\");\n",
+	"class-case":        "class C20Tally {\n  public static $n = 40;\n  public static function who() { self::$n++; return \"A:\" . self::$n; }\n}\necho c20tally::who();\n$t = new c20TALLY();\n",
+	"interface":         "interface C20Iface { }\nclass C20Impl implements c20iface { }\necho (new C20Impl()) instanceof C20IFACE ? \"y\" : \"n\";\n",
+	"trait":             "trait C20Tr {\n  public function hi() { return \"A\"; }\n}\nclass C20UsesTr {\n  use C20Tr;\n}\necho (new C20UsesTr())->hi();\n",
+	"included-file":     "include \"@DIR@/lib.php\";\necho c20lib();\n",
 }
 var c20Observe = map[string]string{
 	"function":          "echo function_exists(\"c20f\") ? \"yes\" : \"no\";\n",
@@ -134,19 +138,25 @@ var c20Observe = map[string]string{
 	"locale":            "echo json_encode(setlocale(LC_ALL, 0));\n",
 	"superglobal":       "echo isset($_GET[\"c20k\"]) ? \"get-set\" : \"get-unset\", \"|\", isset($_SERVER[\"C20S\"]) ? \"server-set\" : \"server-unset\";\n",
 	"env":               "echo json_encode(getenv(\"C20ENV\"));\n",
+	"class-case":        "class C20TALLY {\n  public static $n = 2;\n  public static function who() { self::$n++; return \"B:\" . self::$n; }\n}\necho c20tally::who(), \"|\", get_class(new c20Tally());\n",
+	"interface":         "echo interface_exists(\"C20Iface\", false) ? \"yes\" : \"no\", \"|\", interface_exists(\"c20iface\", false) ? \"yes\" : \"no\";\n",
+	"trait":             "trait C20Tr {\n  public function hi() { return \"B\"; }\n}\nclass C20UsesTr {\n  use C20Tr;\n}\necho (new C20UsesTr())->hi();\n",
+	"included-file":     "include \"@DIR@/lib.php\";\necho function_exists(\"c20lib\") ? \"yes\" : \"no\";\n",
 }
 
 // programs whose output depends on an enumeration order or a lookup among several candidates
 var c20TS = regexp.MustCompile(`\d{4}-\d{2}-\d{2} \d{2}:\d{2}:\d{2}`)
 
 var c20OrderPrograms = map[string]string{
-	"object-default-props": "class P1 {\n  public $zeta = 1;\n  public $alpha = 2;\n  public $mid = 3;\n  public $beta = 4;\n  public $omega = 5;\n  public $kappa = 6;\n}\n$o = new P1();\nforeach ($o as $k => $v) { echo $k, \"=\", $v, \",\"; }\necho \"\\n\", json_encode($o), \"\\n\", json_encode(get_object_vars($o)), \"\\n\";\n",
+	"object-default-props": "class P1 {\n  public $zeta = 1;\n  public $alpha = 2;\n  public $mid = 3;\n  public $beta = 4;\n  public $omega = 5;\n  public $kappa = 6;\n}\n$o = new P1();\nforeach ($o as $k => $v) { echo $k, \"=\", $v, \",\"; }\necho \"\\n\", json_encode($o), \"\\n\", var_export($o, true), \"\\n\";\n",
 	"inherited-props":      "class B1 {\n  public $b1 = 1;\n  public $b2 = 2;\n  public $b3 = 3;\n}\nclass C1 extends B1 {\n  public $c1 = 4;\n  public $c2 = 5;\n  public $c3 = 6;\n}\n$o = new C1();\necho json_encode($o), \"\\n\";\nforeach ($o as $k => $v) { echo $k, \",\"; }\necho \"\\n\";\n",
 	"dynamic-props":        "class D1 { }\n$o = new D1();\n$o->z = 1; $o->a = 2; $o->m = 3; $o->b = 4; $o->y = 5;\nunset($o->m);\n$o->m = 6;\necho json_encode($o), \"\\n\";\nforeach ($o as $k => $v) { echo $k, \",\"; }\necho \"\\n\";\n",
 	"keyed-array":          "$m = [];\n$m[\"z\"] = 1; $m[\"a\"] = 2; $m[\"m\"] = 3; $m[\"b\"] = 4; $m[\"y\"] = 5; $m[\"c\"] = 6;\nunset($m[\"a\"]);\n$m[\"a\"] = 7;\necho json_encode($m), \"\\n\";\nforeach ($m as $k => $v) { echo $k, \"=\", $v, \",\"; }\necho \"\\n\", implode(\",\", array_keys($m)), \"\\n\";\n",
 	"json-decode-order":    "$d = json_decode('{\"z\":1,\"a\":2,\"m\":{\"y\":1,\"b\":2,\"x\":3},\"b\":4,\"q\":5,\"c\":6}', true);\necho json_encode($d), \"\\n\";\nforeach ($d as $k => $v) { echo $k, \",\"; }\n$o = json_decode('{\"z\":1,\"a\":2,\"m\":3,\"b\":4,\"q\":5}');\necho \"\\n\", json_encode($o), \"\\n\";\n",
 	"class-lookup-case":    "class MixedCase { public function who() { return \"MixedCase\"; } }\nclass MIXEDCASE2 { public function who() { return \"MIXEDCASE2\"; } }\n$a = new mixedcase();\n$b = new mixedcase2();\necho $a->who(), \",\", $b->who(), \"\\n\";\necho get_class($a), \"\\n\";\n",
-	"methods-and-statics":  "class M1 {\n  public static $s1 = 1;\n  public static $s2 = 2;\n  public static $s3 = 3;\n  const K1 = 1;\n  const K2 = 2;\n  public function ma() { }\n  public function mz() { }\n  public function mb() { }\n  public function my() { }\n}\necho implode(\",\", get_class_methods(\"M1\")), \"\\n\";\necho json_encode(get_object_vars(new M1())), \"\\n\";\n",
+	"methods-and-statics":  "class M1 {\n  public static $s1 = 1;\n  public static $s2 = 2;\n  public static $s3 = 3;\n  const K1 = 1;\n  const K2 = 2;\n  public function ma() { }\n  public function mz() { }\n  public function mb() { }\n  public function my() { }\n}\necho json_encode(new M1()), \"\\n\";\n$r = new ReflectionClass(\"M1\");\necho json_encode($r->getMethods()), \"\\n\";\n\n",
+	"trait-props":          "trait T1 {\n  public $t1z = 1;\n  public $t1a = 2;\n  public $t1m = 3;\n  public $t1b = 4;\n  public function tm1() { }\n  public function tm0() { }\n}\ntrait T2 {\n  public $t2y = 5;\n  public $t2c = 6;\n  public $t2q = 7;\n  public static $ts2 = 1;\n  public static $ts1 = 2;\n}\nclass U1 {\n  use T1, T2;\n  public $own2 = 8;\n  public $own1 = 9;\n}\n$o = new U1();\nforeach ($o as $k => $v) { echo $k, \"=\", $v, \",\"; }\necho \"\\n\", json_encode($o), \"\\n\", var_export($o, true), \"\\n\";\n",
+	"array-functions":      "$s = [\"z\" => 1, \"a\" => 2, \"m\" => 1, \"b\" => 3, \"y\" => 2, \"c\" => 5, \"x\" => 4];\n$t = [\"m\" => 9, \"q\" => 8, \"a\" => 7, \"r\" => 6];\nfunction kv($a) { $o = \"\"; foreach ($a as $k => $v) { $o = $o . $k . \"=\" . (is_array($v) ? json_encode($v) : $v) . \",\"; } return $o; }\necho kv(array_merge($s, $t)), \"\\n\", kv(array_replace($s, $t)), \"\\n\", implode(\",\", array_values($s)), \"\\n\", kv(array_unique($s)), \"\\n\", kv(array_filter($s)), \"\\n\", kv(array_slice($s, 2, 3)), \"\\n\", kv(array_flip($s)), \"\\n\", kv(array_merge_recursive([\"p\" => $s], [\"p\" => $t])), \"\\n\", kv(array_replace_recursive([\"p\" => $s], [\"p\" => $t])), \"\\n\", kv(array_combine(array_keys($s), array_values($s))), \"\\n\", strtr(\"zambyx\", $s), \"\\n\", kv(array_intersect($s, [1, 2])), \"\\n\", kv(array_diff($s, [1])), \"\\n\", kv(array_fill_keys(array_keys($s), 0)), \"\\n\", var_export($s, true), \"\\n\", serialize($s), \"\\n\";\n[\"b\" => $bb, \"z\" => $zz] = $s;\necho $bb, $zz, \"\\n\";\n",
 	"object-ids":           "class I1 { }\n$a = new I1(); $b = new I1();\necho spl_object_id($a), \",\", spl_object_id($b), \"\\n\";\nvar_dump($b);\n",
 	"serialize-object":     "class S1 {\n  public $q = 1;\n  public $a = \"x\";\n  public $n = [3 => 1, \"k\" => 2];\n  public $b = 1.5;\n}\necho serialize(new S1()), \"\\n\", json_encode(unserialize(serialize([\"z\" => 1, \"a\" => [\"y\" => 2, \"b\" => 3]]))), \"\\n\";\n",
 }
@@ -310,6 +320,11 @@ func C20(c *Ctx) *kf.Report {
 	rep.Coverage["orderedmap_edges_walked"] = len(edgesCovered)
 	rep.Coverage["orderedmap_walks"] = walks
 
+	// ------------------------------------------------------------ 1b. OrderedOps.tla: array functions as functions of the entry sequence
+	if !c20Ops(c, rep, &evals) {
+		return rep
+	}
+
 	// ------------------------------------------------------------ 2. ProcState.tla: (A;B) vs (B)
 	pres := runTLC(rep, tlc.Run{SpecDir: c.SpecDir(), Module: "ProcState", Cfg: "ProcState.cfg", Workers: 4, Timeout: 10 * time.Minute,
 		Consts: map[string]string{"PROC": "{}", "EMIT": "TRUE", "INV": "FreshVMIndependence"}})
@@ -322,7 +337,7 @@ func C20(c *Ctx) *kf.Report {
 		return rep
 	}
 	// the deviation layer: slots the pinned implementation keeps at process level; the model then predicts which pairs differ
-	const c20ProcScoped = `{"ini", "ob-stack", "include-once", "autoloader", "superglobal"}`
+	const c20ProcScoped = `{"ini", "ob-stack", "include-once", "included-file", "autoloader", "superglobal"}`
 	dres := runTLC(rep, tlc.Run{SpecDir: c.SpecDir(), Module: "ProcState", Cfg: "ProcState.cfg", Workers: 4, Timeout: 10 * time.Minute,
 		Consts: map[string]string{"PROC": c20ProcScoped, "EMIT": "TRUE", "INV": ""}})
 	if dres == nil {
@@ -569,4 +584,173 @@ func C20(c *Ctx) *kf.Report {
 	}
 	rep.Coverage["rule"] = "OrderedMap.tla: 633 states / 7596 edges over 4 keys x 2 values, seeded walks of up to 14 steps replayed on data.OrderedMap (Range and GetByIndex after every step) and as keyed-array and object scripts; ProcState.tla: every (touch, observe) pair over 20 slots + touch=nothing, each pair in its own process on two fresh VMs; repetition: enumeration-order programs x20, generated programs x3, deterministic corpus files (quick: every 5th) x5, in fresh processes and in fresh VMs of one process; non-trivial = distinct edges walked + pairs + programs repeated"
 	return rep
+}
+
+// ---------------------------------------------------------------- OrderedOps.tla
+
+type c20KV struct {
+	K string
+	V int
+}
+
+type c20OpsCase struct {
+	S     []c20KV
+	Views map[string]json.RawMessage
+}
+
+var c20OpsViews = []struct{ name, expr string }{
+	{"values", "implode(\",\", array_values($s)) . \",\""},
+	{"keys", "implode(\",\", array_keys($s)) . \",\""},
+	{"reverse", "kv(array_reverse($s))"},
+	{"filter", "kv(array_filter($s, function($v) { return $v > 1; }))"},
+	{"map", "kv(array_map(function($v) { return $v * 10; }, $s))"},
+	{"unique", "kv(array_unique($s))"},
+	{"slice", "kv(array_slice($s, 1, 2))"},
+	{"diff_key", "kv(array_diff_key($s, $t))"},
+	{"intersect_key", "kv(array_intersect_key($s, $t))"},
+	{"merge", "kv(array_merge($s, $t))"},
+	{"replace", "kv(array_replace($s, $t))"},
+	{"key_first", "array_key_first($s)"},
+	{"key_last", "array_key_last($s)"},
+	{"search", "array_search(2, $s)"},
+	{"ksort", "sorted($s, \"k\")"},
+	{"asort", "sorted($s, \"a\")"},
+}
+
+func c20RenderView(raw json.RawMessage) string {
+	var kvs []c20KV
+	if json.Unmarshal(raw, &kvs) == nil && len(kvs) > 0 && kvs[0].K != "" {
+		var sb strings.Builder
+		for _, e := range kvs {
+			fmt.Fprintf(&sb, "%s=%d,", e.K, e.V)
+		}
+		return sb.String()
+	}
+	var list []any
+	if json.Unmarshal(raw, &list) == nil {
+		var sb strings.Builder
+		for _, x := range list {
+			switch v := x.(type) {
+			case float64:
+				fmt.Fprintf(&sb, "%d,", int(v))
+			default:
+				fmt.Fprintf(&sb, "%v,", v)
+			}
+		}
+		return sb.String()
+	}
+	var str string
+	json.Unmarshal(raw, &str)
+	return str
+}
+
+// c20Ops replays every case of OrderedOps.tla: the array functions must return what the spec computes from
+// the entry sequence (same content, same order).
+func c20Ops(c *Ctx, rep *kf.Report, evals *int) bool {
+	res := runTLC(rep, tlc.Run{SpecDir: c.SpecDir(), Module: "OrderedOps", Cfg: "OrderedOps.cfg", Workers: 4, Timeout: 10 * time.Minute})
+	if res == nil {
+		return false
+	}
+	addTLC(rep, res)
+	if res.Violated != "" {
+		rep.Infraf("spec OrderedOps: %s violated\n%s", res.Violated, res.Tail(20))
+		return false
+	}
+	var cases []c20OpsCase
+	var jobs []Job
+	for _, raw := range res.Tagged["CASE"] {
+		var k c20OpsCase
+		must(json.Unmarshal(raw, &k))
+		cases = append(cases, k)
+		var sb strings.Builder
+		sb.WriteString("function kv($a) { $o = \"\"; foreach ($a as $k => $v) { $o = $o . $k . \"=\" . $v . \",\"; } return $o; }\n")
+		sb.WriteString("function sorted($a, $how) { if ($how == \"k\") { ksort($a); } else { asort($a); } return kv($a); }\n")
+		var lit []string
+		for _, e := range k.S {
+			lit = append(lit, fmt.Sprintf("\"%s\" => %d", e.K, e.V))
+		}
+		fmt.Fprintf(&sb, "$s = [%s];\n$t = [\"m\" => 9, \"q\" => 8, \"a\" => 7];\n", strings.Join(lit, ", "))
+		for _, v := range c20OpsViews {
+			fmt.Fprintf(&sb, "try { $r = %s; echo \"%s|\", $r, \"\\n\"; } catch (\\Throwable $e) { echo \"%s|!\", substr($e->getMessage(), 0, 60), \"\\n\"; }\n", v.expr, v.name, v.name)
+		}
+		sb.WriteString("echo \"after|\", kv($s), \"\\n\";\n") // none of the calls may change $s (sorted() works on a copy)
+		jobs = append(jobs, Job{Src: sb.String()})
+	}
+	rs, err := RunJobs(c.Self, jobs, 0, 20*time.Second)
+	if err != nil {
+		rep.Infraf("OrderedOps pool: %v", err)
+		return false
+	}
+	unsupported, otherKeys, otherContent := map[string]int{}, map[string]int{}, map[string]int{}
+	compared := 0
+	for i, k := range cases {
+		r := rs[i]
+		if r.Hang || r.Died || r.Panic != "" || r.ParseErr != "" {
+			rep.Add(kf.Mismatch{ID: "C20/ops/kind=crash", Expected: "the script runs", Observed: map[string]any{"hang": r.Hang, "panic": tailStr(r.Panic, 200), "parse": r.ParseErr, "stderr": tailStr(r.Stderr, 200)}, ObsKey: "crash", Input: jobs[i].Src})
+			continue
+		}
+		got := map[string]string{}
+		for _, l := range strings.Split(r.Out, "\n") {
+			if f := strings.SplitN(l, "|", 2); len(f) == 2 {
+				got[f[0]] = f[1]
+			}
+		}
+		var sOrig strings.Builder
+		for _, e := range k.S {
+			fmt.Fprintf(&sOrig, "%s=%d,", e.K, e.V)
+		}
+		if got["after"] != sOrig.String() {
+			rep.Add(kf.Mismatch{ID: "C20/ops/view=receiver-after", Expected: sOrig.String(), Observed: got["after"], ObsKey: "receiver-changed", Input: jobs[i].Src})
+		}
+		for _, v := range c20OpsViews {
+			o, ok := got[v.name]
+			if !ok || strings.HasPrefix(o, "!") {
+				unsupported[v.name]++
+				continue
+			}
+			want := c20RenderView(k.Views[v.name])
+			compared++
+			*evals++
+			if o == want {
+				continue
+			}
+			// C20 prescribes the ORDER (and that it is the same in every run), not what each function does with
+			// keys: compare the value sequences; a result with the same values in the same order under other keys
+			// (array_reverse / array_map / array_slice renumber string keys here) is outside this property
+			vals := func(x string) []string {
+				var out []string
+				for _, f := range strings.Split(strings.TrimSuffix(x, ","), ",") {
+					if j := strings.IndexByte(f, '='); j >= 0 {
+						f = f[j+1:]
+					}
+					out = append(out, f)
+				}
+				return out
+			}
+			a, b := vals(o), vals(want)
+			if strings.Join(a, ",") == strings.Join(b, ",") {
+				otherKeys[v.name]++
+				continue
+			}
+			sa, sb2 := append([]string{}, a...), append([]string{}, b...)
+			sort.Strings(sa)
+			sort.Strings(sb2)
+			if strings.Join(sa, ",") != strings.Join(sb2, ",") {
+				otherContent[v.name]++ // a different set of entries: the function's own semantics, not enumeration order
+				continue
+			}
+			rep.Add(kf.Mismatch{ID: "C20/ops/view=" + v.name, Expected: want, Observed: o, ObsKey: "order-differs", Input: jobs[i].Src})
+		}
+	}
+	rep.Coverage["ops_cases"] = len(cases)
+	rep.Coverage["ops_views_compared"] = compared
+	rep.Coverage["ops_views_unsupported"] = unsupported
+	rep.Coverage["ops_views_same_order_other_keys"] = otherKeys
+	rep.Coverage["ops_views_other_entries_not_decided_here"] = otherContent
+	for _, must := range []string{"values", "keys", "merge", "filter", "unique"} {
+		if unsupported[must] == len(cases) && len(cases) > 0 {
+			rep.Infraf("OrderedOps: view %s is never evaluated (vacuous)", must)
+		}
+	}
+	return true
 }
